@@ -68,6 +68,22 @@ user functions, methods, nested calls and of every native of the sweep, one
 argument).  Model: table value "rawbig" (OrderOps!RawAt, BigAbove), what-if
 configuration Order_bigraw (SmallBlind: collections up to the threshold show
 nothing), class "big" of the prediction comparison.
+
+Round 5: (a) collections as MEMBERS of sets and KEYS of maps: every prelude
+also builds SR / MR, the same set / map in the reverse construction order;
+templates `*twins-*` put S and SR (M and MR) into one set / map, directly and
+inside lists, maps, sets and objects, and through `in`, `-`, remove, unique,
+set(), append, comprehensions: the number of members must be 1 (model:
+sites member.set / member.map, stage Twin, invariant OneMember; oracle 2
+through Order_Trace) in every process.  In-process (value_ties): a map m
+built in 24 construction orders next to the equal map m0, handed together to
+every function.  (b) enumerations of NAMES: module objects (bundled modules
+and a module zmod.ckl written beside the script, found through -m .), import
+lists with colliding aliases, unqualified imports over existing symbols,
+ls(), ls(M), object members (templates `names-*`, sites names.*; oracle 1
+only: the statement prescribes no order for names, only that every process
+shows the same), and a group of the call channel that hands a module object
+and an object to every function.
 """
 import json
 import math
@@ -223,7 +239,7 @@ def map_key(lit):
 # ---------------------------------------------------------------- templates
 class T:
     def __init__(self, tid, body, prog=None, site=None, pool="str", parse="tokens", n=None, solo=False,
-                 elems="keys"):
+                 elems="keys", oracle2=True):
         self.tid = tid          # template id (violation key)
         self.body = body        # source after the prelude
         self.prog = prog        # id of the model program (OrderOps!Programs) or None = oracle only
@@ -233,7 +249,20 @@ class T:
         self.n = n              # fixed number of elements (None: 6..8)
         self.solo = solo        # needs a script of its own (script result, uncaught error)
         self.elems = elems      # "keys": the model collection holds the key ranks; "values": the value tokens
+        self.oracle2 = oracle2  # False: compared across runs only (names: the statement prescribes no order for them)
 
+
+# round 5: two modules of the user, written beside every script (found through `-m .`).  Their text is the same for
+# every construction order and hash seed: the names they define (some collide with symbols of the base environment
+# and of bundled modules, one is private) and the order of the definitions are part of the program.
+MODULE_FILES = {
+    "zmod.ckl": ("def kiwi = 'kiwi!';\ndef _hidden = 5;\ndef apple(x) x + 1;\ndef quince = [1, 2];\ndef fig(a, b = 2) a * b;\n"
+                 "def sqrt = 'zmod sqrt';\ndef first = 'zmod first';\ndef lemon = <<1>>;\ndef cherry = NULL;\n"
+                 "def mango(x) _hidden + x;\ndef peach = <<<1 => 2>>>;\n"),
+    # a module that binds the symbols of two others into its own name space: they become members of ITS module object
+    "zouter.ckl": ("def own_first = 1;\nrequire zmod unqualified;\nrequire Set unqualified;\ndef own_last = 2;\n"
+                   "def both() [kiwi, type(union), own_first, own_last];\n"),
+}
 
 PRELUDE = ("require List; require Set; require Stat; require String; require Random;\n"
            "def lg(x) do println(x); return x; end;\n"
@@ -500,6 +529,9 @@ def templates():
             "println(idof(min(list(S)))); println(idof(max(list(S)))); println([[e[0], idof(e[1])] for e in enumerate(S)]); "
             "println([idof(x) for x in List->filter(S, fn(y) TRUE)]);", None, pool=p))
         a(T(p + "-random-choice", "Random->set_seed(5); println([idof(Random->choice(S)) for i in range(6)]);", None, pool=p))
+        a(T(p + "-twins-set", "println(length(<<S, SR>>));", "member.set.twins", "member.set", pool=p, parse="int"))
+        a(T(p + "-twins-map", "def t = map(); t[M] = 1; t[MR] = 2; println(length(t));", "member.map.twins", "member.map",
+            pool=p, parse="int"))
         a(T(p + "-destr-assign-set", "def a = 0; def b = 0; def c = 0; [a, b, c] = S; println([idof(a), idof(b), idof(c)]);",
             "destr.assign.set", "destr.assign.set", pool=p))
         a(T(p + "-destr-for-set-of-sets", "for [a, b, c] in [S] do println([idof(a), idof(b), idof(c)]); end;",
@@ -510,6 +542,87 @@ def templates():
         # def names an anonymous function; a member of a set / key of a map must still be found afterwards
         a(T(p + "-keys-after-def", "def [a, b, c] = S; println([idof(k) for k in keys M]); println([a in S, b in S, c in S]); "
             "for k in keys M do println(M[k]); end;", None, pool=p))
+    # ---- round 5: equal collections built in two construction orders (S / SR, M / MR) as members of a set and
+    # keys of a map.  Every template prints the number of members the two make (1).
+    def twin_forms(a_, b_, short):
+        return [
+            ("length", f"println(length(<<{a_}, {b_}>>));"),
+            ("key", f"def t = map(); t[{a_}] = 1; t[{b_}] = 2; println(length(t));"),
+            ("key-literal", f"println(length(<<<[{a_}][0] => 1, [{b_}][0] => 2>>>));"),
+            ("in", f"println(if {b_} in <<{a_}>> then 1 else 2);"),
+            ("in-map", f"println(if {b_} in <<<[{a_}][0] => 1>>> then 1 else 2);"),
+            ("lookup", f"def t = map(); t[{a_}] = 7; println(if t[{b_}, 0] == 7 then 1 else 2);"),
+            ("map-get", f"println(if map_get(<<<[{a_}][0] => 7>>>, {b_}, 0) == 7 then 1 else 2);"),
+            ("minus", f"println(1 + length(<<{a_}>> - <<{b_}>>));"),
+            ("remove", f"def t = <<{a_}>>; remove(t, {b_}); println(1 + length(t));"),
+            ("remove-key", f"def t = <<<[{a_}][0] => 1>>>; remove(t, {b_}); println(1 + length(t));"),
+            ("unique", f"println(length(List->unique([{a_}, {b_}])));"),
+            ("plus", f"println(length(<<{a_}, {b_}>> + <<{b_}>>));"),
+            ("union", f"println(length(Set->union(<<{a_}>>, <<{b_}>>)));"),
+            ("intersection", f"println(2 - length(Set->intersection(<<{a_}>>, <<{b_}>>)));"),
+            ("append", f"def t = <<>>; append(t, {a_}); append(t, {b_}); println(length(t));"),
+            ("convert", f"println(length(set([{a_}, {b_}])));"),
+            ("scompr", f"println(length(<<x for x in [{a_}, {b_}]>>));"),
+            ("mcompr", f"println(length(<<<x => 1 for x in [{a_}, {b_}]>>>));"),
+            ("zip-map", f"println(length(zip_map([{a_}, {b_}], [1, 2])));"),
+            ("counts", f"def t = map(); for x in [{a_}, {b_}, {a_}] do t[x] = t[x, 0] + 1; end; println(length(t));"),
+            ("inside-list", f"println(length(<<[{a_}], [{b_}]>>));"),
+            ("inside-map", f"println(length(<< <<<1 => {a_}>>>, <<<1 => {b_}>>> >>));"),
+            ("inside-set", f"println(length(<< <<{a_}>>, <<{b_}>> >>));"),
+            ("inside-object", f"println(length(<< <*a = {a_}*>, <*a = {b_}*> >>));"),
+        ]
+    for kind, a_, b_ in (("set", "S", "SR"), ("map", "M", "MR")):
+        for name, body in twin_forms(a_, b_, kind):
+            a(T(f"twins-{kind}-{name}", body, f"member.{kind}.twins", f"member.{kind}", parse="int"))
+    a(T("twins-rendered", "println(<<S, SR>>); println(<<<[M][0] => 1, [MR][0] => 2>>>); println([S == SR, M == MR, compare(S, SR), "
+        "compare(M, MR)]);", None))
+    for p in MIXED:
+        a(T(p + "-twins-set", "println(length(<<S, SR>>));", "member.set.twins", pool=p, parse="int"))
+        a(T(p + "-twins-set-in", "println(if SR in <<<[S][0] => 1>>> then 1 else 2);", "member.set.twins", pool=p, parse="int"))
+        a(T(p + "-twins-map", "def t = map(); t[M] = 1; t[MR] = 2; println(length(t));", "member.map.twins", pool=p, parse="int"))
+    # ---- round 5: enumerations of NAMES (module objects, import lists, ls, object members).  Oracle 1 only.
+    for name, body, prog, site in [
+        ("module-string", "require Set as X; println(string(X)); println(X);", "names.module", "names.module"),
+        ("module-ls", "require List as X; println(ls(X)); println(ls('X'));", "names.module", "names.module"),
+        ("module-keys", "require String as X; for name in keys X do println(name); end; println([n for n in keys X]); "
+                        "println([e[0] for e in entries X]); println([string(v) for v in values X]);", "names.module",
+         "names.module"),
+        ("module-default-name", "require Math; println(ls(Math)); println(length(Math));", "names.module", "names.module"),
+        ("module-natives", "require Stat as X; println(enumerate(X)); println(map(X)); println(list(X)); println(set(X)); "
+                           "println(object(map(X)));", "names.module", "names.module"),
+        ("module-of-user", "require zmod as Z; println(Z); println(ls(Z)); println([k for k in keys Z]); println(Z->mango(1)); "
+                           "require zmod; println(zmod);", "names.module", "names.module"),
+        ("module-of-user-nested", "require zouter as Z; println(Z); println(ls(Z)); println(Z->both());", "names.module", None),
+        ("module-as-proto", "require zmod as Z; def c = <*_proto_ = Z, own = 1*>; println([c->kiwi, c->quince]); println(c); "
+                            "println(new(Z));", None, None),
+        ("import-one-alias", "require Math import [sin as f, cos as f, sqrt as g, abs as g]; println([f(0), g(0 - 4)]);",
+         "names.import.last", "names.import"),
+        ("import-one-alias-many", "require List import [first as h, last as h, rest as h, reverse as h, unique as h, "
+                                  "flatten as h]; println(h([3, 1, 2, 1]));", "names.import.last", "names.import"),
+        ("import-one-alias-user", "require zmod import [kiwi as w, quince as w, cherry as w, peach as w, lemon as w, sqrt as w, "
+                                  "first as w]; println(w);", "names.import.last", "names.import"),
+        ("import-distinct-ls", "require zmod import [kiwi, quince as q2, peach, lemon as l2]; "
+                               "println([n for n in ls() if n in ['kiwi', 'q2', 'peach', 'l2', 'quince', 'lemon']]);",
+         "names.import+ls", None),
+        ("unqualified-over-existing", "def first = 'mine'; def sqrt = 'mine'; require List unqualified; require Math unqualified; "
+                                      "println([first([7, 8]), sqrt(16), type(last)]);", "names.import.last", "names.import"),
+        ("unqualified-over-existing-user", "def sqrt = 'outer'; def kiwi = 'outer'; require Math unqualified; "
+                                           "require zmod unqualified; println([sqrt, kiwi, first, apple(1)]);",
+         "names.import.last", "names.import"),
+        ("unqualified-three", "require zmod unqualified; require List unqualified; require Math unqualified; "
+                              "println([type(sqrt), type(first), kiwi]);", "names.import.last", "names.import"),
+        ("unqualified-ls", "require Set unqualified; require zmod unqualified; println(ls());", "names.import+ls", None),
+        ("ls-local", "def zz = 1; def aa = 2; def [mm, bb] = [3, 4]; def ff(x) x; println(ls());", "names.ls", "names.ls"),
+        ("object-members", "def o = <*zeta = 1, alpha = 2, kiwi = 3, fig = 4, mango = 5, beta = 6*>; println(o); "
+                           "println([k for k in keys o]); for k in keys o do println(k); end; println(ls(o)); "
+                           "println([e for e in entries o]); println(map(o)); println(enumerate(o));", "names.object",
+         "names.object"),
+        ("object-inherited", "def o = <*zeta = 1, alpha = 2, kiwi = 3*>; def c = <*_proto_ = o, own = 1, alpha = 7*>; println(c); "
+                             "println(ls(c)); println([k for k in keys c]); println([c->zeta, c->alpha]);", "names.object",
+         "names.object"),
+        ("object-of-map", "def o = object(M); println(ls(o)); println([k for k in keys o]); println(o);", "names.object", None),
+    ]:
+        a(T("names-" + name, body, prog, site, oracle2=False))
     # ---- large collections (round 4): a site that switches to the host order above a size threshold
     for p in BIG:
         for name, body, prog, site in [
@@ -546,8 +659,10 @@ def templates():
                         "List->first(enumerate(S)), List->first(List->filter(S, fn(y) TRUE))]); "
                         "Random->set_seed(5); println([Random->choice(S) for i in range(4)]);", None, None),
             ("join", "println(String->join([string(x) for x in S], ','));", None, None),
+            ("twins-set", "println(length(<<S, SR>>));", "member.set.twins", "member.set"),
+            ("twins-map", "def t = map(); t[M] = 1; t[MR] = 2; println(length(t));", "member.map.twins", "member.map"),
         ]:
-            a(T(f"{p}-{name}", body, prog, site, pool=p))
+            a(T(f"{p}-{name}", body, prog, site, pool=p, parse="int" if name.startswith("twins-") else "tokens"))
     # an uncaught error below a call that was handed the large set and map: what ckl.run prints (stack-trace lines)
     a(T("big120s-uncaught-trace", "def g(group, m, limit) do if length(group) > limit then error 'boom'; return TRUE; end;\n"
         "g(S, M, 100);", None, None, pool="big120s", solo=True))
@@ -581,9 +696,12 @@ class Batch:
 
     def prelude(self, order):
         lines = [PRELUDE.rstrip("\n")]
+        rev = list(reversed(order))      # round 5: SR / MR = the same set / map, built in the reverse order
         if self.pool == "str":
             lines.append("def S = <<" + ", ".join(f"'{KEYW[r - 1]}'" for r in order) + ">>;")
             lines.append("def M = <<<" + ", ".join(f"'{KEYW[r - 1]}' => '{VALW[val_of(r) - 101]}'" for r in order) + ">>>;")
+            lines.append("def SR = <<" + ", ".join(f"'{KEYW[r - 1]}'" for r in rev) + ">>;")
+            lines.append("def MR = <<<" + ", ".join(f"'{KEYW[r - 1]}' => '{VALW[val_of(r) - 101]}'" for r in rev) + ">>>;")
             lines.append("def MI = <<<" + ", ".join(f"{r * 10} => '{VALW[val_of(r) - 101]}'" for r in order) + ">>>;")
             lines.append("def MN = <<<" + ", ".join(f"'{KEYW[r - 1]}' => {val_of(r)}" for r in order) + ">>>;")
             lines.append("def L = [" + ", ".join(f"'{KEYW[r - 1]}'" for r in order) + "];")
@@ -603,14 +721,20 @@ class Batch:
             if not spec.get("single"):
                 lines.append("def M = <<<" + ", ".join(f"F[{at[r]}] => '{VALW[val_of(r) - 101]}'" for r in order) + ">>>;")
                 lines.append("def L = [" + ", ".join(f"F[{at[r]}]" for r in order) + "];")
+                lines.append("def SR = <<" + ", ".join(f"F[{at[r]}]" for r in rev) + ">>;")
+                lines.append("def MR = <<<" + ", ".join(f"F[{at[r]}] => '{VALW[val_of(r) - 101]}'" for r in rev) + ">>>;")
         elif self.pool in BIG:
             mem = big_members(self.pool)
             lines.append("def S = <<" + ", ".join(mem[r][0] for r in order) + ">>;")
             lines.append("def M = <<<" + ", ".join(f"{mem[r][0]} => '{self.words[r]}'" for r in order) + ">>>;")
+            lines.append("def SR = <<" + ", ".join(mem[r][0] for r in rev) + ">>;")
+            lines.append("def MR = <<<" + ", ".join(f"{mem[r][0]} => '{self.words[r]}'" for r in rev) + ">>>;")
         else:
             pool = MIXED[self.pool]
             lines.append("def S = <<" + ", ".join(pool[r][0] for r in order) + ">>;")
             lines.append("def M = <<<" + ", ".join(f"{map_key(pool[r][0])} => '{self.words[r]}'" for r in order) + ">>>;")
+            lines.append("def SR = <<" + ", ".join(pool[r][0] for r in rev) + ">>;")
+            lines.append("def MR = <<<" + ", ".join(f"{map_key(pool[r][0])} => '{self.words[r]}'" for r in rev) + ">>>;")
         return "\n".join(lines) + "\n"
 
     def script(self, order):
@@ -847,7 +971,7 @@ def run_script(workdir, seed, legacy, timeout=300):
     env["PYTHONPATH"] = os.path.join(REPO, "src")
     env["PYTHONHASHSEED"] = str(seed)
     env.pop("PYTHONSTARTUP", None)
-    cmd = [PY, "-m", "ckl.run", "-s"] + (["-l"] if legacy else []) + ["t.ckl"]
+    cmd = [PY, "-m", "ckl.run", "-s", "-m", "."] + (["-l"] if legacy else []) + ["t.ckl"]
     for attempt in (0, 1):
         try:
             p = subprocess.run(cmd, cwd=workdir, env=env, stdout=subprocess.PIPE, stderr=subprocess.PIPE,
@@ -870,6 +994,9 @@ def execute(batches, seeds, legacy_seeds, workers=16):
                 os.makedirs(d)
                 with open(os.path.join(d, "t.ckl"), "w", encoding="utf-8") as f:
                     f.write(b.script(order))
+                for fname, text in MODULE_FILES.items():
+                    with open(os.path.join(d, fname), "w", encoding="utf-8") as f:
+                        f.write(text)
                 oi = [on for on, _ in b.orders].index(oname)
                 light = getattr(b, "light", False)     # 1 100 members: every seed on one order, the other orders once
                 for sd in (seeds if not light or oi == 0 else seeds[oi:oi + 1]):
@@ -1077,7 +1204,7 @@ def judge(run, obs, owner, extra=()):
             distinct.setdefault(o, []).append(rk)
         if len(distinct) > 1:
             varying.setdefault(tid, []).append((b, legacy, distinct))
-        if t.prog is not None and b.rankable:
+        if t.prog is not None and b.rankable and t.oracle2:
             for o, where in distinct.items():
                 if o[1].strip() or o[2] != 0:
                     # the interpreter itself failed (host exception): not an enumeration order; C13's subject
@@ -1107,7 +1234,7 @@ def judge(run, obs, owner, extra=()):
         t = [t for t in b.ts if t.tid == tid][0]
         parts = []
         case = {"kind": "template", "tid": tid, "pool": b.pool, "elems": b.elems, "orders": b.orders,
-                "body": t.body, "prog": t.prog, "parse": t.parse, "runs": []}
+                "body": t.body, "prog": t.prog, "parse": t.parse, "oracle2": t.oracle2, "runs": []}
         cat = "varies" if tid in varying else "unsorted"
         if tid in varying:
             b, legacy, distinct = varying[tid][0]
@@ -1120,8 +1247,13 @@ def judge(run, obs, owner, extra=()):
                              {"legacy": legacy, "order": y[1][0][0], "seed": y[1][0][1]}]
         if tid in unsorted:
             b, legacy, o, where, bd, line = unsorted[tid][0]
-            parts.append(f"observation {line['obs']} is not the sorted enumeration {bd['want']} (program {t.prog}): "
-                         f"order={where[0][0]} PYTHONHASHSEED={where[0][1]} -> {_short(o)}")
+            if (t.prog or "").startswith("member."):
+                cat = cat if tid in varying else "splits"
+                parts.append(f"equal collections built in two construction orders make {line['obs']} members / keys, not "
+                             f"{bd['want']} (program {t.prog}): order={where[0][0]} PYTHONHASHSEED={where[0][1]} -> {_short(o)}")
+            else:
+                parts.append(f"observation {line['obs']} is not the sorted enumeration {bd['want']} (program {t.prog}): "
+                             f"order={where[0][0]} PYTHONHASHSEED={where[0][1]} -> {_short(o)}")
             case["runs"].append({"legacy": legacy, "order": where[0][0], "seed": where[0][1]})
         case["scripts"] = {on: b.solo_of(t).script(o) for on, o in b.orders}
         run.violation(tid, f"{cat}: `{t.body.splitlines()[-1]}` " + "; ".join(parts), case)
@@ -1308,7 +1440,51 @@ def call_groups(rng, quick, funcs):
                        "prelude": {on: call_prelude(b, o) for on, o in b.orders},
                        "fresh": CALL_FRESH, "calls": cl, "runs": sorted(set(runs)), "limit": 10,
                        "fname": {cid: f for cid, _, f in sweep}, "directed": {d[0]: d for d in directed}})
+    groups.append(names_group(rng, quick, funcs))
     return groups
+
+
+# round 5: NAMES in the call channel: a module object (X: bundled module Set, Y: String), an object O and a pair of
+# equal sets / maps built in opposite orders (TW, TWM) handed to every function; `require` runs before every call
+NAMES_FRESH = ("require Set as X; require String as Y; def O = <*zeta = 1, alpha = 'a', kiwi = [3], fig = 4, mango = 5, beta = 6*>; "
+               "def TW = [mkS(), mkSR()]; def TWM = [mkM(), mkMR()]; Random->set_seed(1);\n")
+
+
+def directed_calls_names():
+    return [
+        ("d:names-import-one-alias", "do require Math import [sin as f, cos as f, sqrt as g, abs as g]; [f(0), g(0 - 4)]; end", None, None),
+        ("d:names-import-many", "do require List import [first as h, last as h, rest as h, reverse as h, unique as h, flatten as h]; "
+                                "h([3, 1, 2, 1]); end", None, None),
+        ("d:names-unqualified", "do def first = 'mine'; def sqrt = 'mine'; require List unqualified; require Math unqualified; "
+                                "[first([7, 8]), sqrt(16), type(last)]; end", None, None),
+        ("d:names-trace-module", "do def g(m, o) error 'boom'; g(X, O); end", None, None),
+        ("d:names-trace-method", "do require List as Z; Z->first(X, Y); end", None, None),
+        ("d:names-error-value", "error Y", None, None),
+        ("d:names-strings", "[string(X), string(Y), ls(X), ls(Y), ls(O), [k for k in keys Y]]", None, None),
+        ("d:names-every-module", "do def r = []; for mod in " + repr(list(calls_mod.MODULES)).replace('"', "'") + " do "
+                                 "r !> append(ls(mod)); end; r; end", None, None),
+        ("d:twins-sets", "[length(set(TW)), length(set(TWM)), length(List->unique(TW)), length(List->unique(TWM))]", None, None),
+    ]
+
+
+def names_group(rng, quick, funcs):
+    b = make_batch("calls-names", [], "str", rng, 2, n=6)
+    order = b.orders[0][1]
+    rev = list(reversed(order))
+    pre = ["require " + "; require ".join(calls_mod.MODULES) + ";"]
+    for name, od in (("mkS", order), ("mkSR", rev)):
+        pre.append(f"def {name}() <<" + ", ".join(f"'{KEYW[r - 1]}'" for r in od) + ">>;")
+    for name, od in (("mkM", order), ("mkMR", rev)):
+        pre.append(f"def {name}() <<<" + ", ".join(f"'{KEYW[r - 1]}' => '{VALW[val_of(r) - 101]}'" for r in od) + ">>>;")
+    sweep = calls_mod.sweep_calls([f for f in funcs if f[0].split("->")[-1] not in BIG_SKIP],
+                                  subjects=("X", "O", "set(TW)", "TWM"), max_args=1)
+    directed = directed_calls_names()
+    cl = [(cid, src) for cid, src, _ in sweep] + [(cid, src) for cid, src, _, _ in directed]
+    nseeds = 8 if quick else 32
+    runs = [("asc", sd, False) for sd in range(nseeds)] + [("asc", 1, True), ("asc", 6, True)]
+    return {"gid": "calls-names", "pool": "names", "batch": b, "prelude": {"asc": "\n".join(pre) + "\n"},
+            "fresh": NAMES_FRESH, "calls": cl, "runs": runs, "limit": 10,
+            "fname": {cid: f for cid, _, f in sweep}, "directed": {d[0]: d for d in directed}}
 
 
 _NUM = re.compile(r"-?\d+(?:\.\d+)?(?:[eE][-+]?\d+)?")
@@ -1453,6 +1629,17 @@ TIE_FORMS = ["list(m)", "[v for v in values m]", "[e for e in entries m]", "stri
              "string(object(m))"]
 
 
+# round 5: the map m (built in 24 construction orders) next to m0, the same entries in the first of these orders:
+# they are equal, so wherever the two meet in a set, as keys of a map or in a function that looks members up, the
+# result must not depend on the order in which m was built
+TWIN_FORMS = ["length(<<m0, m>>)", "m in <<m0>>", "<<m0>> - <<m>>", "do def t = map(); t[m0] = 1; t[m] = 2; t end",
+              "do def t = map(); t[m0] = 7; t[m, 0] end", "do def t = <<m0>>; remove(t, m); t end", "List->unique([m0, m])",
+              "length(<<[m0], [m]>>)", "length(<< <<m0>>, <<m>> >>)", "length(<< <*a = m0*>, <*a = m*> >>)",
+              "length(<< <<<1 => m0>>>, <<<1 => m>>> >>)", "set([m0, m])", "<<x for x in [m0, m]>>", "Set->union(<<m0>>, <<m>>)",
+              "[m == m0, compare(m, m0), m0 in [m], List->find([m0], m)]",
+              "do def t = <<<'p' => m0>>>; def u = <<<'p' => m>>>; length(<<t, u>>) end"]
+
+
 def value_ties(run, functions):
     import itertools
     from ckl.interpreter import Interpreter
@@ -1465,12 +1652,18 @@ def value_ties(run, functions):
     orders = list(itertools.permutations(range(len(TIE_ENTRIES))))
     orders = orders[::5]                     # 24 of the 120 construction orders, the identity first
     forms = list(TIE_FORMS) + [f"{call}(m)" for call, _ in functions] + [f"{call}(list(m))" for call, _ in functions]
+    # the functions handed m and its equal twin m0 together (6 construction orders)
+    twin_sweep = [f"{call}({arg})" for call, _ in functions if call.split("->")[-1] not in calls_mod.BY_DESIGN
+                  for arg in ("<<m0, m>>", "[m0, m]")]
+    forms += TWIN_FORMS + twin_sweep
+    few = set(twin_sweep)
+    lit0 = "<<<" + ", ".join(f"{k} => {v}" for k, v in TIE_ENTRIES) + ">>>"
     n = 0
     for form in forms:
         texts = {}
-        for od in orders:
+        for od in (orders[::4] if form in few else orders):
             lit = "<<<" + ", ".join(f"{TIE_ENTRIES[i][0]} => {TIE_ENTRIES[i][1]}" for i in od) + ">>>"
-            o = absval.outcome(lambda: it.interpret(f"def m = {lit}; string({form})", "c12"), limit=20)
+            o = absval.outcome(lambda: it.interpret(f"def m0 = {lit0}; def m = {lit}; string({form})", "c12"), limit=20)
             n += 1
             if o[0] == "val":
                 t = "val " + str(o[1])
@@ -1707,6 +1900,10 @@ def run(run):
                                         "calls": sum(len(g["calls"]) for g in cgroups if g["pool"] == p),
                                         "call_processes": sum(len(g["runs"]) for g in cgroups if g["pool"] == p)} for p in BIG}
     run.cov["templates"] = len(ts)
+    run.cov["round5"] = {"twin_templates": sum(1 for t in ts if "twins-" in t.tid),
+                         "name_templates": sum(1 for t in ts if t.tid.startswith("names-")),
+                         "names_call_group_calls": sum(len(g["calls"]) for g in cgroups if g["pool"] == "names"),
+                         "value_ties_twin_forms": len(TWIN_FORMS)}
     run.cov["model_programs"] = len(progs)
     run.cov["model_programs_with_template"] = len(covered)
     run.cov["model_programs_without_template"] = sorted(set(progs) - set(covered))
@@ -1737,6 +1934,11 @@ def run(run):
         "an object whose _str_ imitates the rendering of a value of another type is not generated",
         "size thresholds: collections of 120 and 1 100 members (strings; sparse ints, whose host order follows the "
         "construction order only); a switch above 1 100 members is not reached; List->permutations is not applied to them",
+        "equal collections built in two construction orders are ONE member of a set / ONE key of a map (the language's == says "
+        "they are equal; a count of 2 depends on their internal orders): checked as a number of members, directly and inside "
+        "lists / maps / sets / objects",
+        "names (module objects, import lists, ls, object members): the statement prescribes no order for them, only that every "
+        "process shows the same; the text of the module, including the order of its definitions, is part of the program",
     ]
 
 
@@ -1749,6 +1951,8 @@ def replay_call(run, case):
         tokens = {KEYW[r - 1]: r for r in case["elems"]}
         tokens.update({VALW[val_of(r) - 101]: val_of(r) for r in case["elems"]})
         b = Batch("replay", [], "str", case["elems"], [], tokens, True)
+    elif pool == "names":
+        b = Batch("replay", [], "str", case["elems"], [], {}, True)
     else:
         b = make_batch("replay", [], pool, random.Random(0), 2)
     directed = {case["cid"]: tuple(case["directed"])} if case.get("directed") else {}
@@ -1770,7 +1974,8 @@ def replay(run, case):
         n, _ = value_ties(run, [(case["form"][:-3], None)] if case["form"].endswith("(m)") else [])
         run.cov["evaluations"] = n
         return
-    t = T(case["tid"], case["body"], case.get("prog"), None, case.get("pool", "str"), case.get("parse", "tokens"))
+    t = T(case["tid"], case["body"], case.get("prog"), None, case.get("pool", "str"), case.get("parse", "tokens"),
+          oracle2=case.get("oracle2", True))
     orders = [(o[0], list(o[1])) for o in case["orders"]]
     if t.pool == "str":
         elems = case["elems"]
